@@ -83,6 +83,14 @@ pub fn alphabet(cfg: &Config) -> Alpha {
             (0, va4(0, 0, 0, 0)), (0, va4(0, 0, 0, 1)), (0, va4(255, 511, 511, 511)), (0, va4(256, 0, 0, 0)), (0, va4(511, 511, 511, 511)),
         ]
     };
+    let mut pages = pages;
+    if let (Impl::Recursive(r), 'A') = (cfg.imp, cfg.variant) {
+        // pages whose level-3 / level-2 / level-1 index equals the recursive index (only the level-4 slot R is special)
+        let r = r as u64;
+        pages.push((0, va4(3, r, 7, 9)));
+        pages.push((0, va4(3, 5, r, 9)));
+        pages.push((0, va4(3, 5, 7, r)));
+    }
     let end = cfg.pbase + (NF * FSZ) as u64;
     let up = |x: u64, a: u64| (x + a - 1) & !(a - 1);
     let f4 = vec![cfg.pbase + 40 * FSZ as u64, cfg.pbase + 41 * FSZ as u64, (1u64 << 52) - 0x1000];
